@@ -36,9 +36,48 @@ fn reset_due(mode: u8, i: usize, n: usize) -> bool {
         }
 }
 
+/// two-series shapes (index 12 + 5*high_pattern + low_pattern): the highs and the lows of the bars follow patterns of
+/// their own — rising, falling, flat, alternating, random — instead of moving together around one driving price:
+/// contracting ranges (every bar inside the previous one: highs falling while lows rise), expanding ones, a rising
+/// ceiling over a flat floor, ... A structure that tracks both extremes (or both sides of a flow) and does its
+/// house-keeping only when one particular side moves is stressed by exactly one of these combinations.
+pub const PATTERNS: [&str; 5] = ["rising", "falling", "flat", "alternating", "random"];
+pub fn shape_name(shape: usize) -> String {
+    if shape < SHAPES.len() {
+        SHAPES[shape].to_string()
+    } else {
+        let k = shape - SHAPES.len();
+        format!("highs_{}_lows_{}", PATTERNS[(k / 5) % 5], PATTERNS[k % 5])
+    }
+}
+pub const N_SHAPES: usize = 12 + 25;
+
+fn pattern(p: usize, i: usize, u: f64) -> f64 {
+    // values in [0, 100]; the monotone ones are strictly monotone for more than 1e7 steps
+    let f = 100.0 * i as f64 / (i as f64 + 1000.0);
+    match p {
+        0 => f,
+        1 => 100.0 - f,
+        2 => 50.0,
+        3 => (i % 2) as f64 * 100.0,
+        _ => 100.0 * u,
+    }
+}
+
 fn gen_inputs(c: &Case) -> Vec<RawBar> {
     let mut st = c.seed;
     let mut out = Vec::with_capacity(c.len);
+    if c.shape >= SHAPES.len() {
+        let k = c.shape - SHAPES.len();
+        let (hp, lp) = ((k / 5) % 5, k % 5);
+        for i in 0..c.len {
+            let h = 1050.0 + pattern(hp, i, unit(&mut st));
+            let l = 850.0 + pattern(lp, i, unit(&mut st));
+            let cl = l + (h - l) * unit(&mut st);
+            out.push(RawBar { o: cl, h, l, c: cl, v: 1.0 + (1000.0 * unit(&mut st)).round() });
+        }
+        return out;
+    }
     for i in 0..c.len {
         let u = unit(&mut st);
         let x = match c.shape {
@@ -119,7 +158,7 @@ pub fn check(c: &Case, ctx: &mut Ctx) -> Result<(), Failure> {
             if sz > bound {
                 ctx.fail(
                     format!("C18:{}:serialized_size_grows", name),
-                    format!("{}: serialized size {} bytes after {} inputs ({} stream) exceeds 256 + 64*(sum of periods) = {}", c.cfg.tag(), sz, i + 1, SHAPES[c.shape], bound),
+                    format!("{}: serialized size {} bytes after {} inputs ({} stream) exceeds 256 + 64*(sum of periods) = {}", c.cfg.tag(), sz, i + 1, shape_name(c.shape), bound),
                 )?;
                 return Ok(());
             }
@@ -157,12 +196,12 @@ pub fn check(c: &Case, ctx: &mut Ctx) -> Result<(), Failure> {
     if growth > bound as isize || peak > bound as isize {
         ctx.fail(
             format!("C18:{}:heap_grows", name),
-            format!("{}: live heap grew by {} bytes (peak {}) while feeding {} further inputs ({} stream) after warm-up; bound 256 + 64*(sum of periods) = {}", c.cfg.tag(), growth, peak, inputs.len() - warm, SHAPES[c.shape], bound),
+            format!("{}: live heap grew by {} bytes (peak {}) while feeding {} further inputs ({} stream) after warm-up; bound 256 + 64*(sum of periods) = {}", c.cfg.tag(), growth, peak, inputs.len() - warm, shape_name(c.shape), bound),
         )?;
     }
     drop(ind);
     ctx.label(&format!("kind:{}", name));
-    ctx.label(&format!("shape:{}", SHAPES[c.shape]));
+    ctx.label(&format!("shape:{}", shape_name(c.shape)));
     ctx.label_n("serialized_size_samples", sizes_seen);
     ctx.label_n("allocation_calls_during_measured_feeding", nalloc as u64);
     ctx.worst(&format!("serialized_size_over_bound:{}", name), max_size as f64 / bound as f64);
@@ -189,7 +228,7 @@ pub fn check(c: &Case, ctx: &mut Ctx) -> Result<(), Failure> {
 const PERIODS: [usize; 8] = [1, 2, 3, 5, 14, 64, 200, 512];
 
 fn strategy(maxlen: usize) -> BoxedStrategy<Case> {
-    (any_kind().prop_flat_map(|k| cfg_for(k, 512, multiplier_any())), prop_oneof![2 => Just(0usize), 2 => Just(1usize), 1 => Just(2usize), 1 => Just(3usize), 1 => Just(4usize), 1 => Just(5usize), 1 => Just(6usize), 1 => Just(7usize), 1 => Just(8usize), 1 => Just(9usize), 1 => Just(10usize), 1 => Just(11usize)], (maxlen / 10)..=maxlen, any::<u64>(), any::<bool>(), prop_oneof![3 => Just(0u8), 1 => 1u8..6])
+    (any_kind().prop_flat_map(|k| cfg_for(k, 512, multiplier_any())), prop_oneof![2 => Just(0usize), 2 => Just(1usize), 1 => Just(2usize), 1 => Just(3usize), 1 => Just(4usize), 1 => Just(5usize), 1 => Just(6usize), 1 => Just(7usize), 1 => Just(8usize), 1 => Just(9usize), 1 => Just(10usize), 1 => Just(11usize), 6 => 12usize..N_SHAPES], (maxlen / 10)..=maxlen, any::<u64>(), any::<bool>(), prop_oneof![3 => Just(0u8), 1 => 1u8..6])
         .prop_map(|(cfg, shape, len, seed, scalar, resets)| {
             let n = cfg.p.iter().copied().max().unwrap_or(1);
             let heavy = matches!(cfg.kind, Kind::Mad | Kind::Cci | Kind::Er) && n > 32;
@@ -200,7 +239,7 @@ fn strategy(maxlen: usize) -> BoxedStrategy<Case> {
 }
 
 pub fn run(g: &mut Global) {
-    g.rule = "grid: all 22 indicators x periods {1,2,3,5,14,64,200,512} x 12 stream shapes (zero-volume moving quotes, an enormous tick every `period` inputs, monotone up, monotone down, alternating, flat, random, rising and falling staircases with exact ties, repeated touches of an exact floor / ceiling, tick-grid walk) x scalar/bar path, streams of 1e5 (quick) / 1e6 (thorough) inputs; with_resets: periods {1,9,20,60} x five reset schedules (every 50 / 390 / n+1 inputs, once after the window filled, during warm-up and every 7n+3) x 3 shapes; random: proptest (kind, periods from the mixture to 512, shape, length, seed). Oracle: (i) bincode::serialized_size <= 256 + 64*(sum of periods) at every one of the first 4n+50 inputs and at geometrically spaced checkpoints afterwards; (ii) counting #[global_allocator] with per-thread live-byte counters: after a warm-up of 2n+10 inputs, the net growth (and the sampled peak) of live heap bytes while feeding the rest stays <= the same bound; the number of allocation calls during that phase is reported. Non-trivial = stream at least 20 periods long; sub-class monotone shapes (worst case for a retained history / monotonic deque); distinct by (kind, parameters, shape, length, seed, path).".into();
+    g.rule = "grid: all 22 indicators x periods {1,2,3,5,14,64,200,512} x 12 single-series stream shapes (zero-volume moving quotes, an enormous tick every `period` inputs, monotone up, monotone down, alternating, flat, random, rising and falling staircases with exact ties, repeated touches of an exact floor / ceiling, tick-grid walk) x scalar/bar path, streams of 1e5 (quick) / 1e6 (thorough) inputs; two_series_bars: the 9 indicators that read more than one bar field x the 8 periods x 25 shapes in which highs and lows follow patterns of their own (rising / falling / flat / alternating / random each: contracting inside-bar ranges, expanding ranges, a rising ceiling over a flat floor, ...); with_resets: periods {1,9,20,60} x five reset schedules (every 50 / 390 / n+1 inputs, once after the window filled, during warm-up and every 7n+3) x 3 shapes; random: proptest (kind, periods from the mixture to 512, shape, length, seed). Oracle: (i) bincode::serialized_size <= 256 + 64*(sum of periods) at every one of the first 4n+50 inputs and at geometrically spaced checkpoints afterwards; (ii) counting #[global_allocator] with per-thread live-byte counters: after a warm-up of 2n+10 inputs, the net growth (and the sampled peak) of live heap bytes while feeding the rest stays <= the same bound; the number of allocation calls during that phase is reported. Non-trivial = stream at least 20 periods long; sub-class monotone shapes (worst case for a retained history / monotonic deque); distinct by (kind, parameters, shape, length, seed, path).".into();
     g.assumptions = vec![
         "inputs are pre-generated before the measured phase; the feeding loop itself allocates nothing".into(),
         "heap is measured on the thread that feeds the indicator; ta spawns no threads".into(),
@@ -222,6 +261,23 @@ pub fn run(g: &mut Global) {
             let l = if heavy { (len / (n / 16)).max(20 * n) } else { len.max(20 * n) };
             let mut s = seed ^ i.wrapping_mul(0x2545F4914F6CDD1D);
             Case { cfg: cfg_small(kind, n), shape, len: l, seed: splitmix(&mut s), scalar, resets: 0 }
+        },
+        &check,
+    );
+    // two-series bar shapes (see PATTERNS) for the indicators that read more than one field of a bar
+    const MULTI: [Kind; 9] = [Kind::FastStoch, Kind::SlowStoch, Kind::Tr, Kind::Atr, Kind::Cci, Kind::Ce, Kind::Kc, Kind::Mfi, Kind::Obv];
+    g.exhaustive(
+        "two_series_bars",
+        9 * 8 * 25,
+        &move |i| {
+            let shape = 12 + (i % 25) as usize;
+            let r = i / 25;
+            let n = PERIODS[(r % 8) as usize];
+            let kind = MULTI[(r / 8) as usize];
+            let heavy = matches!(kind, Kind::Cci) && n > 32;
+            let l = if heavy { (len / (n / 16)).max(20 * n) } else { len.max(20 * n) };
+            let mut s = seed ^ (i + 991).wrapping_mul(0x2545F4914F6CDD1D);
+            Case { cfg: cfg_small(kind, n), shape, len: l, seed: splitmix(&mut s), scalar: false, resets: 0 }
         },
         &check,
     );
